@@ -27,7 +27,7 @@ ASSUMPTIONS = ['all three clauses are judged for prefixes inside the territory t
                'calls) places are undefined and the unchanged library ranks a re-imported card differently, so only the log '
                'replay (in full) and the card round trip on state, heights, cards and bests are judged there',
                'the order of athletes with equal places in ranked_jumpers is deliberately not observed']
-RULE = RULE + "; plays that leave the model's territory are continued for 30 calls and judged on the log replay (in full) and on state / heights / cards / bests of the card round trip"
+RULE = RULE + '; the replica carried on (bar, trials, late entry) leaves the original as it was' + "; plays that leave the model's territory are continued for 30 calls and judged on the log replay (in full) and on state / heights / cards / bests of the card round trip"
 
 
 def _h(h):
@@ -158,6 +158,24 @@ def examine(case, draw=None, stats=None):
         if s1 != base:
             out.append(V('log-replay', ['log-replay-differs'] + diff(base, s1)[:2], case,
                          {k: [base[k], s1[k]] for k in diff(base, s1)}))
+        # the replica is a competition of its own: carried on (another bar, further trials, a late entry - whatever it
+        # accepts), it leaves the original, its log and its trial list as they were
+        from decimal import Decimal as _D
+        rep = r[1]
+        try:
+            top = max([_D(str(h)) for h in rep.heights] or [_D('1.00')]) + _D('0.01')
+        except Exception:
+            top = _D('9.00')
+        hjimpl.apply(rep, ('add', 'ZZ9'))
+        hjimpl.apply(rep, ('bar', top))
+        for j_ in list(rep.jumpers)[:4]:
+            hjimpl.apply(rep, ('failed', j_.bib))
+            hjimpl.apply(rep, ('cleared', j_.bib))
+        s2 = snap(c)
+        if s2 != base:
+            out.append(V('log-replay', ['replica-carried-on-changes-the-original'] + diff(base, s2)[:2], case,
+                         {k: [base[k], s2[k]] for k in diff(base, s2)}))
+            return out                # the original is no longer the competition that was played: nothing below applies
     # the same log handed over in other containers (a tuple, a one-shot iterator, a generator): the same competition
     for label, mk in (('tuple', lambda: tuple(c.actions)), ('iterator', lambda: iter(list(c.actions))),
                       ('generator', lambda: (a for a in list(c.actions)))):
